@@ -42,6 +42,8 @@ def classify(e, op):
     n = type(e).__name__
     if n in EXC_CLASS:
         return EXC_CLASS[n]
+    if op == "getmeta" and isinstance(e, FileNotFoundError):
+        return "notfound"      # the document vanished between probe and open: still "not found"
     if isinstance(e, ValueError):
         return "notfound" if op == "getmeta" else "badvalue"
     if isinstance(e, TypeError):
@@ -58,12 +60,12 @@ def res(cls, cid="-", data="-", truth=True, **kw):
 
 
 class Driver:
-    def __init__(self, inst, root, inputs, fhs=None):
+    def __init__(self, inst, root, inputs, fhs=None, store=None):
         self.inst, self.root, self.inputs = inst, root, inputs
         if fhs is None:
             fhs, _ = load_hashstore()
         self.fhs = fhs
-        self.store = fhs.FileHashStore(inst.props(root))
+        self.store = store if store is not None else fhs.FileHashStore(inst.props(root))
         self.notes = []
 
     # ---- payload abstraction -------------------------------------------------
